@@ -83,9 +83,57 @@ pub fn cfb_cmp(a: &str, b: &str) -> Ordering {
     }
 }
 
-pub fn cfb_eq(a: &str, b: &str) -> bool {
-    cfb_cmp(a, b) == Ordering::Equal
+/// Simple upper-case of a supplementary-plane character (Deseret, Osage, Adlam, ...), if it
+/// has one.  MS-CFB folds per UTF-16 code unit and so never folds these; the crate documents
+/// "simple upper-casing per character" and does fold them.  The model follows the crate's
+/// documentation for EQUALITY (so that "found again under any letter-case variant" can be
+/// judged for such names); their ORDER is never judged (`is_agreed` is false for them).
+fn supplementary_upper(c: char) -> char {
+    if (c as u32) < 0x10000 {
+        return c;
+    }
+    let mut it = c.to_uppercase();
+    match (it.next(), it.next()) {
+        (Some(u), None) if (u as u32) >= 0x10000 => u,
+        _ => c,
+    }
 }
+
+pub fn cfb_eq(a: &str, b: &str) -> bool {
+    if cfb_cmp(a, b) == Ordering::Equal {
+        return true;
+    }
+    if a.chars().any(|c| (c as u32) >= 0x10000) || b.chars().any(|c| (c as u32) >= 0x10000) {
+        let fa: String = a.chars().map(supplementary_upper).collect();
+        let fb: String = b.chars().map(supplementary_upper).collect();
+        return cfb_cmp(&fa, &fb) == Ordering::Equal;
+    }
+    false
+}
+
+/// Flip the case of every cased supplementary-plane letter in `name`.
+pub fn flip_supplementary_case(name: &str) -> String {
+    name.chars()
+        .map(|c| {
+            if (c as u32) < 0x10000 {
+                return c;
+            }
+            let up = supplementary_upper(c);
+            if up != c {
+                return up;
+            }
+            let mut it = c.to_lowercase();
+            match (it.next(), it.next()) {
+                (Some(l), None) if (l as u32) >= 0x10000 => l,
+                _ => c,
+            }
+        })
+        .collect()
+}
+
+/// Cased supplementary-plane letters (lower-case forms): Deseret, Osage, Old Hungarian,
+/// Warang Citi, Medefaidrin, Adlam.
+pub const SUPPLEMENTARY_CASED: &[char] = &['\u{10428}', '\u{10437}', '\u{1044f}', '\u{104d8}', '\u{104fb}', '\u{10cc0}', '\u{118c0}', '\u{16e60}', '\u{1e922}', '\u{1e943}'];
 
 pub fn units(name: &str) -> usize {
     name.encode_utf16().count()
